@@ -170,12 +170,20 @@ def budget(tier: str) -> dict:
 _TIER = {"gen_L": 1200}
 
 
+class CostExplosion(BaseException):
+    pass
+
+
+CALL_LIMIT = 6 * 10**7  # deterministic abort: far above any linear family at the sizes used
+
+
 class Cost:
-    def __init__(self) -> None:
+    def __init__(self, limit: int = CALL_LIMIT) -> None:
         self.root = boot.lib_root()
         self.n = 0
         self.depth = 0
         self.maxdepth = 0
+        self.limit = limit
 
     def prof(self, frame, event, arg):  # noqa: ARG002
         if event == "call":
@@ -184,15 +192,22 @@ class Cost:
                 self.maxdepth = self.depth
             if frame.f_code.co_filename.startswith(self.root):
                 self.n += 1
+                if self.n > self.limit:
+                    sys.setprofile(None)
+                    raise CostExplosion()
         elif event == "return":
             self.depth -= 1
 
 
-def cost(md, src: str) -> tuple[int, int]:
-    c = Cost()
+def cost(md, src: str, limit: int = CALL_LIMIT) -> tuple[int, int]:
+    c = Cost(limit)
     sys.setprofile(c.prof)
     try:
         md.render(src)
+    except CostExplosion:
+        return c.n, c.maxdepth
+    except RecursionError:
+        return -1, c.maxdepth
     finally:
         sys.setprofile(None)
     return c.n, c.maxdepth
@@ -282,11 +297,21 @@ def growth(md, f, L: int, res: Res, name: str, preset: str) -> None:
 
     def measure(k):
         s = sized(f, L * k)
-        c, _ = cost(md, s)
+        c, _ = cost(md, s, min(CALL_LIMIT, 40000 * (len(s) + 100)))
         pts.append((len(s), c))
+
+    class _Stop(Exception):
+        pass
 
     for k in (1, 2, 4):
         measure(k)
+        if pts[-1][1] < 0:
+            res.fail(f"recursion-error:{name}:{preset}", f"{name}: RecursionError at length {pts[-1][0]}")
+            return
+        if pts[-1][1] > min(CALL_LIMIT, 40000 * (pts[-1][0] + 100)):
+            res.nt = True
+            res.fail(f"cost-explosion:{name}:{preset}", f"{name}: more than {pts[-1][1] - 1} library calls for {pts[-1][0]} characters (deterministic call budget exceeded); (length, calls) so far {pts}")
+            return
         if k > 1 and pts[-1][0] < 1.5 * pts[-2][0]:
             res.cls.append("family-does-not-scale")
             return
